@@ -128,6 +128,9 @@ func normRESTPresence(field string, ms []proto.Message) []proto.Message {
 		if m == nil {
 			continue
 		}
+		m = proto.Clone(m)
+		dropNullValues(m.ProtoReflect())
+		out[i] = m
 		fd := m.ProtoReflect().Descriptor().Fields().ByName(protoName(field))
 		if fd == nil || fd.Message() == nil || fd.IsList() || fd.IsMap() || !m.ProtoReflect().Has(fd) {
 			continue
